@@ -58,6 +58,18 @@ def drivers():
         _decode as dec2,
     )
     from mc.jit import compile_module
+
+    def caller(dec, enc_id):
+        """njit call(x, y, a) = dec(x, y, a[0], ..., a[m-1])."""
+        probe = make_instance(2, 2, [[1, 1, 2]])
+        m = len(kernel_args(enc_id, probe)[0])
+        src = ("def call(x, y, a):\n    return dec(x, y, "
+               + ", ".join(f"a[{i}]" for i in range(m)) + ")\n")
+        env = {"dec": dec}
+        exec(src, env)  # noqa
+        return numba.njit(cache=False)(env["call"])
+    call1 = caller(dec1, 1)
+    call2 = caller(dec2, 2)
     ns = compile_module(P, ["_free", "ibl_try_bin", "ibl_place",
                             "paint_check"])
     place = ns["ibl_place"]
@@ -65,19 +77,22 @@ def drivers():
     try_bin = ns["ibl_try_bin"]
 
     @numba.njit(cache=False)
-    def drive_tree(inst, inst64, W, H, xbuf, y, bs, be, grid, res, bad14,
+    def drive_tree(a1, a2, inst64, W, H, xbuf, y, bs, be, grid, res, bad14,
                    bad01, lb):
         """
         Depth-first over all signed permutations with repetition.
 
-        inst/y/bs/be/xbuf: arrays in the instance's real dtypes.
+        a1/a2: the arguments the public decode() of encoding 1/2 hands to
+        its compiled kernel after (x, y) - see kernel_args; bs/be: the
+        scratch arrays among them that are poisoned before every call;
+        y/bs/be/xbuf: arrays in the instance's real dtypes.
         res: 0 nodes, 1 leaves, 2 model mismatches, 3 infeasible nodes,
         4 min bins enc1, 5 min bins enc2, 6 max bins, 7 code of first
         infeasible, 8 enc of first mismatch, 9 enc of first infeasible,
         10 leaves below lower bound, 11 len of bad14, 12 len of bad01,
         13 multi-bin leaves
         """
-        nt = inst.shape[0]
+        nt = inst64.shape[0]
         n = y.shape[0]
         rects = np.zeros((n, 6), np.int64)
         out = np.zeros(2, np.int64)
@@ -120,9 +135,9 @@ def drivers():
                     bs[i] = n - 1
                     be[i] = n - 1
                 if enc == 1:
-                    nbr = dec1(xbuf[:k + 1], y, inst, W, H)
+                    nbr = call1(xbuf[:k + 1], y, a1)
                 else:
-                    nbr = dec2(xbuf[:k + 1], y, inst, W, H, bs, be)
+                    nbr = call2(xbuf[:k + 1], y, a2)
                 res[0] += 1
                 same = nbr == nb
                 if same:
@@ -163,8 +178,75 @@ def drivers():
                 depth += 1
                 choice[depth] = 0
     _DRV.update(drive_tree=drive_tree, place=place, paint=paint,
-                try_bin=try_bin, dec1=dec1, dec2=dec2)
+                try_bin=try_bin, dec1=dec1, dec2=dec2, call1=call1,
+                call2=call2)
     return _DRV
+
+
+_KNAMES = {}
+
+
+def kernel_args(enc_id, inst, wrap=None):
+    """
+    What the public decode() of an encoding passes to its compiled kernel.
+
+    The module-level kernel ``_decode`` is replaced by a recorder for one
+    public ``decode(x, y)`` call; returned are the arguments after (x, y) -
+    the instance, the bin size and the encoder's scratch arrays, whatever
+    their number - and the two scratch arrays named bin_starts / bin_ends
+    (dummies if the kernel has none).  The exploration thereby calls the
+    kernel exactly as the public API does, also after a refactoring that
+    changes the kernel's private signature.  wrap(array) may substitute
+    every scratch array (e.g. by a view into a guard-padded buffer).
+    """
+    import importlib
+    import inspect
+
+    from moptipyapps.binpacking2d.packing import Packing
+    mod = importlib.import_module(
+        f"moptipyapps.binpacking2d.encodings.ibl_encoding_{enc_id}")
+    enc = getattr(mod, f"ImprovedBottomLeftEncoding{enc_id}")(inst)
+    orig = mod._decode
+    rec = []
+
+    def spy(*a, **kw):
+        rec.append((a, kw))
+        return 1
+    x = np.array(inst.get_standard_item_sequence(), inst.dtype)
+    y = Packing(inst)
+    mod._decode = spy
+    try:
+        enc.decode(x, y)
+    finally:
+        mod._decode = orig
+    arr = np.asarray(inst)
+    n = inst.n_items
+    if len(rec) == 1 and not rec[0][1] and len(rec[0][0]) >= 2 \
+            and rec[0][0][0] is x and rec[0][0][1] is y:
+        args = [np.asarray(v) if isinstance(v, np.ndarray) else v
+                for v in rec[0][0][2:]]
+    else:   # decode() does not go through the module-level name
+        args = [arr, inst.bin_width, inst.bin_height]
+        if enc_id == 2:
+            args += [np.zeros(n, arr.dtype), np.zeros(n, arr.dtype)]
+    if wrap is not None:
+        args = [wrap(v) if k > 0 and isinstance(v, np.ndarray) else v
+                for k, v in enumerate(args)]
+    if enc_id not in _KNAMES:
+        try:
+            _KNAMES[enc_id] = list(inspect.signature(
+                getattr(orig, "py_func", orig)).parameters)[2:]
+        except (TypeError, ValueError):
+            _KNAMES[enc_id] = []
+    names = _KNAMES[enc_id]
+    scratch = []
+    for nm in ("bin_starts", "bin_ends"):
+        a = args[names.index(nm)] if nm in names and names.index(nm) < len(
+            args) else None
+        if not (isinstance(a, np.ndarray) and a.shape == (n,)):
+            a = np.zeros(n, arr.dtype)
+        scratch.append(a)
+    return tuple(args), scratch[0], scratch[1]
 
 
 def make_instance(W, H, rows, name="v"):
@@ -179,15 +261,15 @@ def run_tree(W, H, rows):
     arr = np.asarray(inst)
     n = inst.n_items
     y = np.empty((n, 6), arr.dtype)
-    bs = np.empty(n, arr.dtype)
-    be = np.empty(n, arr.dtype)
+    a1, _, _ = kernel_args(1, inst)
+    a2, bs, be = kernel_args(2, inst)
     xbuf = np.zeros(n, arr.dtype)
     grid = np.zeros((n, W, H), np.int8)
     res = np.zeros(16, np.int64)
     bad14 = np.zeros(n, np.int64)
     bad01 = np.zeros(n, np.int64)
-    d["drive_tree"](arr, arr.astype(np.int64), W, H, xbuf, y, bs, be, grid,
-                    res, bad14, bad01, int(inst.lower_bound_bins))
+    d["drive_tree"](a1, a2, arr.astype(np.int64), W, H, xbuf, y, bs, be,
+                    grid, res, bad14, bad01, int(inst.lower_bound_bins))
     return inst, res, bad14[:res[11]], bad01[:res[12]]
 
 
@@ -525,16 +607,16 @@ def tree_objective_driver():
     import numba
     d = drivers()
     g = gen_drivers()
-    dec1 = d["dec1"]
-    dec2 = d["dec2"]
+    call1 = d["call1"]
+    call2 = d["call2"]
     eval_real = g["eval_real"]
     from mc.jit import compile_module
     omodel = compile_module(P, ["objective_models"])["objective_models"]
 
     @numba.njit(cache=False)
-    def tree_objectives(inst, inst64, W, H, xbuf, y, bs, be, tmp_e, tmp_s,
+    def tree_objectives(a1, a2, inst64, W, H, xbuf, y, tmp_e, tmp_s,
                         mins, maxs, res, bad):
-        nt = inst.shape[0]
+        nt = inst64.shape[0]
         n = y.shape[0]
         remaining = np.zeros(nt, np.int64)
         choice = np.zeros(n + 1, np.int64)
@@ -556,9 +638,9 @@ def tree_objective_driver():
             if depth == n:
                 for enc in (1, 2):
                     if enc == 1:
-                        k = dec1(xbuf, y, inst, W, H)
+                        k = call1(xbuf, y, a1)
                     else:
-                        k = dec2(xbuf, y, inst, W, H, bs, be)
+                        k = call2(xbuf, y, a2)
                     res[0] += 1
                     omodel(y, n, k, W, H, grid, cnt, area, sky, exp)
                     tmp_e.fill(111)
@@ -614,8 +696,8 @@ def decoder_packings(W, H, rows):
     maxs = np.zeros((7, n + 1), np.int64)
     res = np.zeros(16, np.int64)
     bad = np.zeros((n, 6), np.int64)
-    t["tree_objectives"](arr, arr.astype(np.int64), W, H,
+    t["tree_objectives"](kernel_args(1, inst)[0], kernel_args(2, inst)[0],
+                         arr.astype(np.int64), W, H,
                          np.zeros(n, arr.dtype), y, np.zeros(n, arr.dtype),
-                         np.zeros(n, arr.dtype), np.zeros(n, arr.dtype),
                          np.zeros(n, np.int64), mins, maxs, res, bad)
     return inst, res, mins, maxs, None, bad
